@@ -380,7 +380,7 @@ func (r *Run) explore(g Group, h HarnessSpec, fn *ssa.Function) *HarnessResult {
 	cfg := &interp.Config{
 		Prog: r.prog, Harness: fn, MaxSteps: h.MaxSteps, MaxDecisions: h.MaxDecisions, TimeoutMS: h.TimeoutMS,
 		KnownClasses: known, WantWitness: true, InitAllow: initAllow,
-		Sizes: types.SizesFor("gc", "amd64"), Trace: r.Trace, Tier: r.tierNum(),
+		Sizes: types.SizesFor("gc", "amd64"), Trace: r.Trace, Tier: r.tierNum(), Seed: int(r.Seed),
 	}
 	cfg.Fallback = func(c *smt.Ctx, asserts []*smt.Term, wantModel bool, syms []*smt.Term) (smt.Result, smt.Model) {
 		for _, be := range []smt.Backend{smt.Z3New, smt.CVC5Int} {
@@ -615,7 +615,7 @@ func nativeEnv() []string {
 }
 
 func (r *Run) runNative(bin, pkgDir, harness string, values map[string]string, file string) (*nativeOut, error) {
-	rf := map[string]any{"harness": harness, "tier": r.tierNum(), "values": values, "property": r.Spec.Prop, "pkg": pkgDir}
+	rf := map[string]any{"harness": harness, "tier": r.tierNum(), "seed": int(r.Seed), "values": values, "property": r.Spec.Prop, "pkg": pkgDir}
 	data, _ := json.MarshalIndent(rf, "", " ")
 	if err := os.WriteFile(file, data, 0o644); err != nil {
 		return nil, err
